@@ -9,7 +9,10 @@
    known_holes = [RSharedFilterMalformed; RWillTopic; RSubscriptionIdNotAvailable]:
           rules the code does not enforce (known findings D8, D17, D4-dynamic), each with a witness.
           (RTopicNul left the list with the repair of D23, /repo a2fa1c5: U+0000 in a topic name / filter of
-          PUBLISH / SUBSCRIBE / UNSUBSCRIBE is rejected; in a will topic it counts as RWillTopic, D17.) *)
+          PUBLISH / SUBSCRIBE / UNSUBSCRIBE is rejected; in a will topic it counts as RWillTopic, D17.
+          RStringNul, the same rule [MQTT-1.5.4-2] for every other UTF-8 string field (user property names and values,
+          reason string, content type, server reference, authentication method ...), was added to the specification
+          with the repair of D28, /repo cbc2d52, and is enforced: it is not a hole.) *)
 From GM Require Import Base.Prelude Base.Outcome Codec.Packets Codec.Prim Codec.Settings.
 From GM Require Import Validate.Topic Validate.Rules Validate.Spec.
 From GM Require Import ValidateProofs.TopicP ValidateProofs.RulesP ValidateProofs.WitnessP.
@@ -41,6 +44,19 @@ Proof. exact refuted_will_topic. Qed.
 Theorem C16_sound_refuted_subscription_id_not_available :
   exists st, accepted_violating st w_subid_unavailable 1 RSubscriptionIdNotAvailable.
 Proof. eexists. exact refuted_subscription_id_not_available. Qed.
+
+(* D28 repaired (/repo cbc2d52): U+0000 in a reason string (the DISCONNECT found by the C02 client-path monitor), a
+   content type, a user property name or value is rejected at submission and violates RStringNul; a zero byte in
+   binary correlation data / payload is accepted and conforms *)
+Theorem C16_string_nul_rejected :
+  validate_outbound w_reason_nul = Err EPacketValidationFailure /\
+  In RStringNul (violations st_all co_default no_resolution w_reason_nul) /\
+  validate_outbound (pub_with (Some [116; 0]) None None) = Err EPacketValidationFailure /\
+  validate_outbound (pub_with None None (Some [ {| up_name := [110; 0]; up_value := [118] |} ])) = Err EPacketValidationFailure /\
+  validate_outbound (pub_with None None (Some [ {| up_name := [110]; up_value := [0; 118] |} ])) = Err EPacketValidationFailure /\
+  validate_outbound (pub_with None (Some [0; 1]) None) = Ok tt /\
+  conforms st_all co_default no_resolution (pub_with None (Some [0; 1]) None) = true.
+Proof. exact fixed_string_nul. Qed.
 
 (* Completeness: a conforming submitted packet passes both validations, except the known over-strict
    case (UNSUBSCRIBE with a wildcard / shared filter when the server lacks the capability). *)
